@@ -1,6 +1,7 @@
 package main
 
 import (
+	"crypto/sha1"
 	"fmt"
 	"go/constant"
 	"go/token"
@@ -856,7 +857,7 @@ func (w *World) convert(x Val, from, to types.Type) Val {
 		return n
 	case Sym:
 		if n.s == 'I' && tb != nil && tb.Info()&types.IsFloat != 0 {
-			return symR("(to_real " + n.t + ")")
+			return w.roundReal("(to_real " + n.t + ")")
 		}
 		if n.s == 'R' && tb != nil && tb.Info()&types.IsInteger != 0 {
 			// out of int64 range (incl. rounding up to 2^63): amd64 yields MinInt64
@@ -1277,8 +1278,14 @@ func (w *World) roundReal(exact string) Val {
 	if !w.floatRounding {
 		return symR(exact)
 	}
-	d := w.fresh("fpd", "Real")
-	w.s.send(fmt.Sprintf("(assert (and (<= (- (/ 1.0 9007199254740992.0)) %s) (<= %s (/ 1.0 9007199254740992.0))))", d, d))
+	// deterministic rounding model: fl(x) = x*(1+d_x), |d_x| <= 2^-53, one d per distinct exact term, so that
+	// recomputing the same expression yields the identical term
+	d := fmt.Sprintf("fpd_%x", sha1.Sum([]byte(exact)))[:18]
+	if !w.declared[d] {
+		w.declared[d] = true
+		w.s.send("(declare-const " + d + " Real)")
+		w.s.send(fmt.Sprintf("(assert (and (<= (- (/ 1.0 9007199254740992.0)) %s) (<= %s (/ 1.0 9007199254740992.0))))", d, d))
+	}
 	return symR("(* " + exact + " (+ 1.0 " + d + "))")
 }
 
